@@ -29,7 +29,7 @@ import collections
 from mc import boundx
 from mc import c18_world as w
 
-BUDGET = {'quick': 80, 'thorough': 600}
+BUDGET = {'quick': 240, 'thorough': 600}
 HASH_INSENSITIVE = True
 
 RULE = ('one case = one population x batch size x pre-existing snapshots '
